@@ -159,6 +159,7 @@ func checkStrictMirror(c *core.Ctx) {
 		// function itself or in a helper it was moved to
 		var found *ast.IfStmt
 		var rng *ast.RangeStmt
+		strictAtoms := map[string]bool{} // spellings of "the descriptor is strict" inside the per-argument test
 		for _, bf := range helperClosureBound(p, fn) {
 			bf := bf
 			if found != nil {
@@ -190,6 +191,30 @@ func checkStrictMirror(c *core.Ctx) {
 				for _, cnd := range bf.conds {
 					if strings.HasSuffix(cnd, ".Strict") {
 						guarded = true // the helper is only called for strict descriptors
+					}
+				}
+				// `if isStrict && Null.Is(…) == Is` with isStrict := ….Strict: the guard is a conjunct of the test
+				if !guarded {
+					var conj func(e ast.Expr) []ast.Expr
+					conj = func(e ast.Expr) []ast.Expr {
+						if be, ok := core.Unparen(e).(*ast.BinaryExpr); ok && be.Op == token.LAND {
+							return append(conj(be.X), conj(be.Y)...)
+						}
+						return []ast.Expr{core.Unparen(e)}
+					}
+					for _, cj := range conj(inner.Cond) {
+						resolved := cj
+						if id, ok := cj.(*ast.Ident); ok {
+							if v, ok := bf.fn.Info().Uses[id].(*types.Var); ok {
+								if def := singleDef(bf.fn.Info(), bf.fn.Decl.Body, v); def != nil {
+									resolved = core.Unparen(def)
+								}
+							}
+						}
+						if sel, ok := resolved.(*ast.SelectorExpr); ok && sel.Sel.Name == "Strict" {
+							guarded = true
+							strictAtoms[core.ExprStr(cj)] = true
+						}
 					}
 				}
 				if !guarded {
@@ -243,6 +268,12 @@ func checkStrictMirror(c *core.Ctx) {
 		okArg, effectSeen := true, false
 		for _, rn := range []string{"TypeRelationIsnt", "TypeRelationMaybe", "TypeRelationIs"} {
 			in := &absint.Interp{Info: info, Prog: p}
+			in.Hooks.Cond = func(st *absint.State, atom string) (bool, bool) {
+				if strictAtoms[atom] || (len(strictAtoms) > 0 && strings.HasSuffix(atom, ".Strict")) {
+					return true, true // the mirror is about strict descriptors
+				}
+				return false, false
+			}
 			in.Hooks.Call = func(st *absint.State, call *ast.CallExpr, callee string, recv absint.Val, args []absint.Val) (absint.Val, bool) {
 				switch callee {
 				case "octosql.Type.Is":
